@@ -11,7 +11,7 @@ against /repo's working tree and run the correspondence check (T-corr) on seeded
 (5) evaluate the monitors, (6) replay known findings, (7) write evidence/<id>.json.
 Exit 0 = held on everything explored; exit 1 + VIOLATION line = violation; exit 2 = machinery broken.
 """
-import argparse, fcntl, hashlib, json, os, re, shutil, subprocess, sys, time
+import argparse, fcntl, glob, hashlib, json, os, re, shutil, subprocess, sys, time
 
 ROOT = os.path.dirname(os.path.abspath(__file__))
 REPO = os.environ.get('VERIF_REPO', '/repo')
@@ -74,6 +74,9 @@ def tree_hash():
     add_dir(HARNESS, ('.go', '.mod'))
     add_dir(TRANSLATOR, ('.go', '.mod'))
     add_dir(os.path.join(ROOT, 'tools'), ('.py',))
+    add_dir(os.path.join(ROOT, 'corpus'), ('.ops',))
+    with open(os.path.join(ROOT, 'check.py'), 'rb') as fh:
+        h.update(hashlib.sha256(fh.read()).digest())
     add_dir(LEAN, ('.lean', '.toml'), skip=(os.path.join(LEAN, 'Hub', 'Generated'),))
     return h.hexdigest()[:20]
 
@@ -729,6 +732,26 @@ def run_determinism(tier, seed, th):
                 break
         if not res['violations']:
             os.remove(ops)
+    # the corpus histories as well (fixed inputs; among them several sessions of one subscription
+    # pended in one step), each executed in three fresh processes
+    for ops in sorted(glob.glob(os.path.join(ROOT, 'corpus', '*.ops'))):
+        outs = []
+        for procs in res['procs'] * 3:
+            with open(ops, 'rb') as fi:
+                p = subprocess.run([os.path.join(BIN, 'hubsim'), 'run'], stdin=fi, stdout=subprocess.PIPE, stderr=subprocess.PIPE,
+                                   env=dict(os.environ, GOMAXPROCS=str(procs)), timeout=600)
+            outs.append(p.stdout)
+        res['histories'] += 1
+        res['lines_compared'] += outs[0].count(b'\n') * (len(outs) - 1)
+        res['apphashes_compared'] += outs[0].count(b'\nA apphash=') * (len(outs) - 1)
+        for k in range(1, len(outs)):
+            if outs[k] != outs[0]:
+                a, b = outs[0].split(b'\n'), outs[k].split(b'\n')
+                j = next((x for x in range(min(len(a), len(b))) if a[x] != b[x]), min(len(a), len(b)))
+                res['violations'].append({'msg': 'same history, different result (run 1 vs run %d)' % (k + 1),
+                                          'failing_input': ops, 'line': j, 'run1': a[j][:300].decode(errors='replace') if j < len(a) else '',
+                                          'run2': b[j][:300].decode(errors='replace') if j < len(b) else ''})
+                break
     json.dump(res, open(summ, 'w'), indent=1)
     return res
 
